@@ -602,6 +602,12 @@ func (p *probe) receive(ctx vivid.ActorContext, beh string) {
 		w.record(Ev{Actor: me, Inst: p.inst, Kind: "evt:*EvB", ID: m.ID, From: from, Beh: beh})
 	case EvC:
 		w.record(Ev{Actor: me, Inst: p.inst, Kind: "evt:EvC", ID: m.ID, From: from, Beh: beh})
+	case ves.ActorKilledEvent:
+		kp := ""
+		if m.ActorRef != nil {
+			kp = m.ActorRef.GetPath()
+		}
+		w.record(Ev{Actor: me, Inst: p.inst, Kind: "evt:Killed", From: from, Beh: beh, Note: kp})
 	default:
 		w.record(Ev{Actor: me, Inst: p.inst, Kind: fmt.Sprintf("other:%T", m), From: from, Beh: beh})
 	}
@@ -758,6 +764,8 @@ func evProto(s string) any {
 		return EvA{}
 	case "B":
 		return &EvB{}
+	case "K":
+		return ves.ActorKilledEvent{}
 	default:
 		return EvC{}
 	}
